@@ -32,16 +32,16 @@ import (
 // configurations
 
 type config struct {
-	Name       string `json:"name"`
-	NDet       int    `json:"detectors"`
-	NArch      int    `json:"archetypes"`
-	Watch      []int  `json:"watch"` // detector i watches archetype Watch[i]
-	IntervalMs int    `json:"pull_interval_ms"`
-	TimeoutMs  int    `json:"rpc_timeout_ms"`
-	Blackhole  bool   `json:"blackhole"`   // after shutdown a listener that accepts and never answers takes the address over
-	NoShutdown bool   `json:"no_shutdown"` // monitor is started first and never shut down (bounds the 2x2 configuration)
-	Ends       [][]int `json:"ends"`       // admissible end kinds per archetype
-	SymDet     bool   `json:"sym_det"`     // detectors are interchangeable: detector i+1 may only start after detector i
+	Name       string  `json:"name"`
+	NDet       int     `json:"detectors"`
+	NArch      int     `json:"archetypes"`
+	Watch      []int   `json:"watch"` // detector i watches archetype Watch[i]
+	IntervalMs int     `json:"pull_interval_ms"`
+	TimeoutMs  int     `json:"rpc_timeout_ms"`
+	Blackhole  bool    `json:"blackhole"`   // after shutdown a listener that accepts and never answers takes the address over
+	NoShutdown bool    `json:"no_shutdown"` // monitor is started first and never shut down (bounds the 2x2 configuration)
+	Ends       [][]int `json:"ends"`        // admissible end kinds per archetype
+	SymDet     bool    `json:"sym_det"`     // detectors are interchangeable: detector i+1 may only start after detector i
 }
 
 const (
@@ -922,27 +922,27 @@ func TestCheck(t *testing.T) {
 				"(fresh Monitor + NewFailureDetector on loopback per order); after each event every started detector is polled until 21 consecutive ReadValue answers, spread over 5 polling intervals, give the required answer " +
 				"(deadline max(10 s, 2500 intervals)); a never-read twin detector must end in the same state and report; " +
 				"distinct = distinct (configuration, event order with end kinds, required/observed final states); plus the delay cases with the interval raised to 1.5 s",
-			"samples":                     samples,
-			"configurations":              cfgs,
-			"orders_per_configuration":    perCfg,
-			"exhaustive":                  st.Exhaustive && discarded == 0,
-			"cap_hit":                     st.CapHit,
-			"divergences":                 st.Divergences,
-			"discarded_env_timeout":       discarded,
-			"env_timeouts":                envTimeouts.Load(),
-			"port_rebinds":                portRetries.Load(),
-			"unconfirmed_candidates":      unconfirmed(viol),
+			"samples":                             samples,
+			"configurations":                      cfgs,
+			"orders_per_configuration":            perCfg,
+			"exhaustive":                          st.Exhaustive && discarded == 0,
+			"cap_hit":                             st.CapHit,
+			"divergences":                         st.Divergences,
+			"discarded_env_timeout":               discarded,
+			"env_timeouts":                        envTimeouts.Load(),
+			"port_rebinds":                        portRetries.Load(),
+			"unconfirmed_candidates":              unconfirmed(viol),
 			"monitor_close_race_panics_recovered": monitorCloseRacePanics.Load(),
-			"detector_checks":             checksTotal.Load(),
-			"polls":                       pollsTotal.Load(),
-			"max_polls_until_required":    maxWaitPolls.Load(),
-			"max_read_latency_us":         maxReadMicros.Load(),
-			"delay_cases":                 len(delayCases),
-			"delay_cases_passed":          len(delayOut),
-			"settle_polls":                settlePolls,
-			"workers":                     workers,
-			"explore_wall_s":              st.WallS,
-			"not_covered":                 "goroutine interleavings inside net/rpc; process death of the monitor host; more than 2 detectors/archetypes",
+			"detector_checks":                     checksTotal.Load(),
+			"polls":                               pollsTotal.Load(),
+			"max_polls_until_required":            maxWaitPolls.Load(),
+			"max_read_latency_us":                 maxReadMicros.Load(),
+			"delay_cases":                         len(delayCases),
+			"delay_cases_passed":                  len(delayOut),
+			"settle_polls":                        settlePolls,
+			"workers":                             workers,
+			"explore_wall_s":                      st.WallS,
+			"not_covered":                         "goroutine interleavings inside net/rpc; process death of the monitor host; more than 2 detectors/archetypes",
 		}
 		return res
 	})
